@@ -26,11 +26,12 @@ def enumerate_cases(mod, tier, seed):
     rationals) is additionally run with two more draws of those rationals"""
     import copy
     cases = list(mod.cases(tier, seed))
-    if tier == "thorough":
+    ndraws = getattr(mod, "EXTRA_DRAWS", 2)      # properties whose thorough tier is already long opt out
+    if tier == "thorough" and ndraws:
         extra = []
         for c in cases:
             if set((c.config or {}).get("concrete_blocks") or ()) - {"viaL", "upd", "updw", "viaSL", "pxdiag", "pxSL", "nnq"}:
-                for k in (1, 2):
+                for k in range(1, ndraws + 1):
                     c2 = copy.copy(c)
                     c2.id = f"{c.id}/draw{k}"
                     c2.config = dict(c.config, rational_draw=k)
